@@ -4,7 +4,7 @@ use crate::json::{hex_short, J};
 use crate::prng::{fnv, fnv_add, Rng};
 use crate::refs::archive::endian;
 use crate::refs::strings::{gen_ident, gen_sjis, gen_sjis_nonempty, gen_unicode, sjis_encode};
-use crate::refs::text::{read_text_image, unescape};
+use crate::refs::text::{read_text_image, unescape, write_text_image};
 use mila::{TextArchive, TextArchiveFormat};
 
 #[derive(Clone, Debug)]
@@ -278,6 +278,13 @@ fn check(c: &mut Case, name: &str, raw: &Content) {
 
 fn distinct_keys(rng: &mut Rng, n: usize) -> Vec<String> {
     let mut keys: Vec<String> = Vec::new();
+    if n >= 2 && rng.chance(1, 20) {
+        // two distinct keys that collide under a common hash function
+        let (a, b) = *rng.pick(&crate::refs::strings::COLLIDING_PAIRS);
+        keys.push(a.to_string());
+        keys.push(b.to_string());
+        rng.shuffle(&mut keys);
+    }
     while keys.len() < n {
         let k = if rng.chance(2, 3) { format!("MID_{}", gen_ident(rng, 8)) } else { gen_sjis_nonempty(rng, 8) };
         if !keys.contains(&k) {
@@ -285,6 +292,49 @@ fn distinct_keys(rng: &mut Rng, n: usize) -> Vec<String> {
         }
     }
     keys
+}
+
+/// A text archive that was not written by the library (so its messages never went through
+/// set_message): whatever value parsing yields, that value must survive serialize + parse.
+pub fn check_parsed_foreign(c: &mut Case, content: &Content, alias: bool) {
+    let enc = |s: &str| sjis_encode(s).map(|b| !b.contains(&0)).unwrap_or(false);
+    if !enc(&content.title) || content.entries.iter().any(|(k, v)| !enc(k) || k.is_empty() || v.contains('\0') || (!content.unicode && !enc(v))) {
+        return; // the reference writer only builds files whose Shift-JIS parts are expressible
+    }
+    let mut rng = c.rng.clone();
+    let entries: Vec<(Vec<String>, String)> = content
+        .entries
+        .iter()
+        .enumerate()
+        .map(|(i, (k, v))| {
+            let mut labels = vec![k.clone()];
+            if alias && rng.chance(1, 3) {
+                labels.push(format!("ALIAS_{}", i));
+            }
+            (labels, v.clone())
+        })
+        .collect();
+    c.rng = rng;
+    let img = write_text_image(content.be, content.unicode, &content.title, &entries);
+    if cfg!(miri) && content.unicode {
+        return;
+    }
+    let img_t = crate::monitor::tight(&img);
+    let t = match c.lib("TextArchive::from_bytes (reference-built image)", || TextArchive::from_bytes(&img_t, fmt(content.unicode), endian(content.be))) {
+        Some(Ok(t)) => t,
+        Some(Err(_)) => {
+            c.outcome("foreign_image_refused");
+            return;
+        }
+        None => return,
+    };
+    c.sit("parsed_from_reference_built_image");
+    let held = Content { unicode: content.unicode, be: content.be, title: if content.unicode { t.get_title().to_string() } else { String::new() }, entries: t.get_entries().iter().map(|(k, v)| (k.clone(), v.clone())).collect() };
+    if !alias && held.entries != content.entries {
+        c.fail("foreign", "foreign_image_content", format!("a conforming image built by the reference writer parses to different entries: got {} expected {}", held.describe(), content.describe()));
+        return;
+    }
+    check_roundtrip(c, "value parsed from a reference-built image", &t, &held);
 }
 
 pub fn gen(rng: &mut Rng, quick: bool) -> Content {
@@ -373,6 +423,7 @@ pub const REQUIRED: &[&str] = &[
     "long_shift_jis_string",
     "same_object_serialized_edited_serialized",
     "key_count_around_256_4096_65536",
+    "parsed_from_reference_built_image",
 ];
 
 pub fn run(cx: &mut Ctx) {
@@ -412,6 +463,21 @@ pub fn run(cx: &mut Ctx) {
             t.entries.push((format!("bom{}", i), s.to_string()));
         }
         cx.case("bom_like_first_characters", |c| check(c, "bom_like_first_characters", &t));
+    }
+    // ---- files that did not come out of the library: messages that never passed set_message
+    for unicode in [false, true] {
+        for be in [false, true] {
+            let t = Content {
+                unicode,
+                be,
+                title: "foreign".into(),
+                entries: vec![("A".into(), "a\\nb".into()), ("B".into(), "\\n".into()), ("C".into(), "x\\".into()), ("D".into(), "\\\\n\n\\n".into()), ("E".into(), String::new()), ("F".into(), "n\\".into())],
+            };
+            cx.case("foreign_image", |c| {
+                check_parsed_foreign(c, &t, false);
+                check_parsed_foreign(c, &t, true);
+            });
+        }
     }
     // ---- exhaustive: every BMP scalar as a 1-char message and as first char of a 2-char message
     let step = if cfg!(miri) { 16411 } else { 1 };
@@ -470,7 +536,11 @@ pub fn run(cx: &mut Ctx) {
             super::poison::maybe(c, 7);
             let mut rng = c.rng.clone();
             let content = gen(&mut rng, quick);
+            let foreign = rng.below(8);
             check(c, "random", &content);
+            if foreign < 2 {
+                check_parsed_foreign(c, &content, foreign == 1);
+            }
         });
     }
 }
